@@ -17,6 +17,7 @@ import (
 	"verif/props/c12"
 	"verif/props/c13"
 	"verif/props/c18"
+	"verif/props/c19"
 )
 
 // Registry maps property ids to spec constructors.
@@ -36,5 +37,6 @@ func Registry() map[string]func() *mon.Spec {
 		"C12": c12.Spec,
 		"C13": c13.Spec,
 		"C18": c18.Spec,
+		"C19": c19.Spec,
 	}
 }
